@@ -258,46 +258,65 @@ def run_one(tape, tier, opts):
             from cnvlib import commands
 
             an = algo_name(primary_count)
-            outp = os.path.join(rundir, "cli-out", "sample.targetcoverage.cnn")
             # a bare "-p" is documented as "use all available CPUs" (processes=0 -> every CPU)
             bare_p = tape.chance(1, 4, "cov.cli_bare_p")
-            argv = ["coverage", bam, bed_plain if primary_count else bed_pile, "-o", outp,
-                    "-q", str(min_mapq)] + (["-c"] if primary_count else []) + (
-                        ["-p"] if bare_p else ["-p", str(processes)])
             if bare_p:
                 ctx.probe("cli.bare_p_all_cpus")
-            try:
-                cargs = commands.parse_args(argv)
-                cargs.func(cargs)
-            except SystemExit as exc:
-                raise Violation("D3", f"C09/D3/{an}/cli", f"cnvkit.py {' '.join(argv[:1] + argv[3:])} exited: {exc}")
-            except C.SimCrash:
-                raise
-            except BaseException as exc:  # noqa: BLE001
-                raise Violation("D3", f"C09/D3/{an}/cli{'/bare_p' if bare_p else ''}",
-                                f"cnvkit.py coverage -p {'' if bare_p else processes} {'-c ' if primary_count else ''}raised "
-                                f"{type(exc).__name__}: {D.mask_text(exc)[:300]} (do_coverage succeeds)")
-            df = pd.read_csv(outp, sep="\t", na_filter=False, dtype={"chromosome": str, "gene": str})
-            got = list(zip(df["chromosome"].tolist(), df["start"].tolist(), df["end"].tolist(),
-                           df["gene"].tolist(), df["depth"].astype(float).tolist(),
-                           df["log2"].astype(float).tolist()))
-            want = serial[primary_count]
-            msg = None
-            if len(got) != len(want):
-                msg = f"{len(got)} rows in the .cnn file, expected {len(want)}"
-            else:
-                for i, (g, w) in enumerate(zip(got, want)):
-                    if g[:4] != w[:4]:
-                        msg = f"row {i}: bin {g[:4]} but expected {w[:4]}"
-                        break
-                    if abs(g[4] - w[4]) > 1e-5 * max(1.0, abs(w[4])) or abs(g[5] - w[5]) > 1e-5 * max(1.0, abs(w[5])):
-                        msg = f"row {i} {g[:4]}: depth/log2 {g[4:]} but do_coverage gave {w[4:]}"
-                        break
-            if msg:
-                raise Violation("D3", f"C09/D3/{an}/cli",
-                                f"cnvkit.py coverage -p {processes} chunk={chunk}: written table differs "
-                                f"from the serial do_coverage table: {msg}")
-            ctx.probe("cli.coverage_file_checked")
+
+            def cli_run(tag, fault):
+                outp = os.path.join(rundir, "cli-out-" + tag, "sample.targetcoverage.cnn")
+                argv = ["coverage", bam, bed_plain if primary_count else bed_pile, "-o", outp,
+                        "-q", str(min_mapq)] + (["-c"] if primary_count else []) + (
+                            ["-p"] if bare_p else ["-p", str(processes)])
+                shown = f"cnvkit.py coverage -q {min_mapq} -p {'' if bare_p else processes} " \
+                        f"{'-c ' if primary_count else ''}chunk={chunk}"
+                _arm_faults(ctx, fs, fault, primary_count, tape)
+                fs.reset_counter()
+                err = None
+                try:
+                    cargs = commands.parse_args(argv)
+                    cargs.func(cargs)
+                except C.SimCrash:
+                    raise
+                except BaseException as exc:  # noqa: BLE001 (SystemExit included)
+                    err = exc
+                fired = _faults_fired(ctx, fs)
+                _disarm(ctx, fs)
+                if err is not None:
+                    if fired:
+                        ctx.probe("cli.fault_call_raised")
+                        return
+                    raise Violation("D3", f"C09/D3/{an}/cli{'/bare_p' if bare_p else ''}",
+                                    f"{shown} raised {type(err).__name__}: {D.mask_text(err)[:300]} "
+                                    f"(do_coverage succeeds)")
+                df = pd.read_csv(outp, sep="\t", na_filter=False, dtype={"chromosome": str, "gene": str})
+                got = list(zip(df["chromosome"].tolist(), df["start"].tolist(), df["end"].tolist(),
+                               df["gene"].tolist(), df["depth"].astype(float).tolist(),
+                               df["log2"].astype(float).tolist()))
+                want = serial[primary_count]
+                msg = None
+                if len(got) != len(want):
+                    msg = f"{len(got)} rows in the .cnn file, expected {len(want)}"
+                else:
+                    for i, (g, w) in enumerate(zip(got, want)):
+                        if g[:4] != w[:4]:
+                            msg = f"row {i}: bin {g[:4]} but expected {w[:4]}"
+                            break
+                        if abs(g[4] - w[4]) > 1e-5 * max(1.0, abs(w[4])) or abs(g[5] - w[5]) > 1e-5 * max(1.0, abs(w[5])):
+                            msg = f"row {i} {g[:4]}: depth/log2 {g[4:]} but do_coverage gave {w[4:]}"
+                            break
+                if msg:
+                    clause = "F1" if fired else "D3"
+                    raise Violation(clause, f"C09/{clause}/{an}/cli",
+                                    f"{shown}{' after fault ' + str(fired) if fired else ''}: written table "
+                                    f"differs from the serial do_coverage table: {msg}")
+                ctx.probe("cli.fault_survived_correct_file" if fired else "cli.coverage_file_checked")
+
+            cli_run("plain", None)
+            if population == "fault" and tape.chance(1, 2, "cov.cli_fault"):
+                # the same command with a fault in its parallel leg: it may fail, it must
+                # not write a table that differs from the serial one
+                cli_run("fault", fault_kind)
 
         # ---- parallel runs ----------------------------------------------------
         todo = [primary_count] + ([not primary_count] if both_parallel else [])
@@ -355,6 +374,32 @@ def run_one(tape, tier, opts):
                     raise Violation("F1", f"C09/F1/{an}/retry",
                                     f"{an}: fault-free retry after {fired} differs from serial: {msg}")
                 ctx.probe("fault.retry_ok")
+        # ---- another cut-off on the same files in the same process, then the first again -----
+        if tape.chance(1, 2, "cov.second_config"):
+            mq2 = tape.choice([q for q in (0, 1, 10, 30, 60) if q != min_mapq], "cov.min_mapq2")
+            model2 = G.model_table(wl, mq2)
+            save_mq = min_mapq
+            for by_count in (primary_count, not primary_count):
+                an = algo_name(by_count)
+                procs2 = processes if tape.chance(1, 2, "cov.second_parallel") else 1
+                bed = bed_plain if by_count else bed_pile
+                for (mq, want, what) in ((mq2, model2, f"-q {mq2} after -q {save_mq}"),
+                                         (save_mq, None, f"-q {save_mq} again after -q {mq2}")):
+                    try:
+                        out = cov.do_coverage(bed, bam, by_count, mq, procs2)
+                    except C.SimCrash:
+                        raise
+                    except BaseException as exc:  # noqa: BLE001
+                        raise Violation("D1", f"C09/D1/{an}/second_call/raises",
+                                        f"{an} {what} (processes={procs2}) raised {type(exc).__name__}: "
+                                        f"{D.mask_text(exc)[:300]}")
+                    rows, err = _rows_of(out)
+                    msg = err or (_cmp_rows(rows, want, ordered=False) if want is not None
+                                  else _cmp_rows(rows, serial[by_count], ordered=True))
+                    if msg:
+                        raise Violation("D1", f"C09/D1/{an}/second_call",
+                                        f"{an} {what} in the same process (processes={procs2}): {msg}")
+                ctx.probe("second_config.checked")
     except Violation as v:
         res.update(status="violation", clause=v.clause, key=v.key, message=v.message)
     finally:
